@@ -14,6 +14,7 @@ mod common;
 mod credit;
 mod frame;
 mod peer;
+mod reasm;
 mod recvcredit;
 mod session;
 
@@ -70,6 +71,7 @@ fn main() {
         "credit" => credit::main(&opts),
         "frame" => frame::main(&opts),
         "recvcredit" => recvcredit::main(&opts),
+        "reasm" => reasm::main(&opts),
         other => {
             eprintln!("unknown module {}", other);
             std::process::exit(64);
